@@ -12,6 +12,7 @@ CHECKS = {
  "C01": ("dynamic symbolic execution of the real pipeline + SMT (z3)", "bounded: every shape class of the statement with symbolic counts; unsat on every path = conserved for all values within the bound", "5"),
  "C02": ("dynamic symbolic execution of the real pipeline + SMT (z3)", "bounded: per-group sum identities proved for all values on every path", "5"),
  "C03": ("dynamic symbolic execution of the real pipeline + SMT (z3, mixed int/real)", "bounded: floor / finality / whole-number obligations for arbitrary regression outputs", "5"),
+ "C04": ("dynamic symbolic execution of the real get_unit_prediction_intervals (split, population correction, np.quantile semantics) on symbolic residuals/weights (z3); leave-one-out counting over an exchangeable pool for the probabilistic clause", "bounded: n_cal<=4, alpha in {0.5,0.6}; the last step to a probability statement is pen-and-paper", "5"),
  "C05": ("dynamic symbolic execution + exact LP-optimality contract for intercept-only quantile regression (z3)", "bounded: weighted-median identity and prediction formula for all counts", "5"),
  "C09": ("dynamic symbolic execution of CombinedDataHandler.get_units + SMT (z3)", "bounded: all structural options of a unit x all values incl. thresholds at limits", "5"),
  "C10": ("self-composition (two symbolic runs in one path) + SMT with uninterpreted regression leaves", "bounded 2-safety: outputs equal as functions of inputs that exclude the perturbed count", "5"),
@@ -22,6 +23,7 @@ CHECKS = {
  "C06": ("bit-precise QF_FP (cvc5) for the rank arithmetic over all doubles alpha; dynamic symbolic execution (z3) of compute_bootstrap_errors with stubbed leaves (invariant) and of the interval functions from arbitrary draws satisfying the invariant (assume/guarantee)", "bounded: all doubles alpha x listed B; B<=3 draws, <=3 outstanding units for the value-level clauses", "5"),
  "C07": ("dynamic symbolic execution of the real client + bootstrap aggregate functions from arbitrary draws (z3); call/stop states enumerated as cases", "bounded: 2 contests x all call/stop states, every sign of prediction and bounds", "5"),
  "C08": ("dynamic symbolic execution of get_national_summary_estimates after the real aggregate loop (z3); aggregate lists/orders enumerated", "bounded: 2 contests, B=2, all aggregate lists and orders over 3 levels", "5"),
+ "C15": ("dynamic symbolic execution of GaussianElectionModel.get_aggregate_prediction_intervals + GaussianModel.fit with set-labelled calibration statistics (z3)", "bounded: calibration counts from {0,1,9,10,11} per group, <=2 states, 2 levels", "5"),
  "C16": ("explorer-enumerated categorical structure + SMT over the continuous features (z3) on the real Featurizer", "bounded exhaustive over level assignments (<=3^5), symbolic feature values", "5"),
  "C17": ("dynamic symbolic execution of compute_versioned_margin_estimate on symbolic version histories (z3, nonlinear reals)", "bounded: V<=3 versions, latest percent <=3", "5"),
  "C18": ("explorer-enumerated option subsets on the real client with recording S3 fake (z3 explorer) + CrossHair (z3) on the key builders with symbolic id strings", "bounded: all 16 option subsets x env x estimator x gate outcome; ids <=2-3 chars", "5"),
